@@ -106,7 +106,10 @@ impl NamespaceProof {
         // for each tree level. Based on that we can recompute the total amount
         // of leaves in a tree.
         if self.end_idx().saturating_sub(self.start_idx()) == 1 {
-            Some(1 << self.siblings().len())
+            // a tree can't have more levels than bits in `usize`
+            u32::try_from(self.siblings().len())
+                .ok()
+                .and_then(|levels| 1usize.checked_shl(levels))
         } else {
             None
         }
